@@ -43,7 +43,7 @@ def setup() -> None:
 
 
 def budget(tier: str) -> int:
-    return 4000 if tier == "quick" else 60000
+    return 4000 if tier == "quick" else 200000
 
 
 # ---------------------------------------------------------------------------
